@@ -102,6 +102,10 @@ Definition plain_of (hs : list hfacts) (o : op) : bool :=
 (* nodes.Struct.Outdated: the recorded versions against the current ones, element by element *)
 Definition stale_by_list (recorded current : list N) : bool := negb (list_eqb N.eqb recorded current).
 
+(* /repo HEAD since fix 6677351: dependencies the last run of Process() did not read ([unread]) are skipped *)
+Definition stale_masked (unread : list bool) (recorded current : list N) : bool :=
+  existsb (fun x => negb (fst x) && negb (N.eqb (fst (snd x)) (snd (snd x)))) (combine unread (combine recorded current)).
+
 (* the folded variant: stamp = fold (fun s v => s<<sh xor v) from the seed s0 (e.g. the number of dependencies) *)
 Definition fold_stamp (sh s0 : N) (vs : list N) : N := fold_left (fun s v => N.lxor (N.shiftl s sh) v) vs s0.
 Definition stale_by_stamp (sh s0 : N) (recorded current : list N) : bool :=
